@@ -93,7 +93,9 @@ Guard(st, e) ==
                 IF r.pc \notin {"done", "failed"} THEN "end.pc"
                 ELSE IF (e.res = "ok") # (r.pc = "done") THEN "end.outcome"
                 ELSE ""
-           [] e.op = "crash" -> IF r.pc \in Terminal THEN "crash.pc" ELSE ""
+           \* the process may be killed at any boundary, also after the last operation but before
+           \* control is back at the caller (pc done / failed, not yet returned)
+           [] e.op = "crash" -> IF r.pc = "dead" THEN "crash.pc" ELSE ""
            [] OTHER -> "unknown.op"
 
 (* ---- the step itself (only meaningful when Guard(st, e) = "") ----------------- *)
